@@ -14,10 +14,13 @@ def main(tier, seed):
         refused.extend(l for l in out.splitlines() if l.startswith("REFUSED"))
         rc, out = sh([PY, str(VERIF / "harness" / "py2coq_search.py"), str(REPO / "tinyflux" / "index.py"), str(COQ / "gen" / "SearchGen.v")], timeout=60)
         refused.extend(l for l in out.splitlines() if l.startswith("REFUSED"))
+        run_translator("py2coq_read.py", "tinyflux", "gen/ReadGen.v", refused)
     return dbtie.db_check("C01", tier, seed, PROFILE, 800, 6000, "Prop_C01",
                           "user callables and re are an environment the theorems quantify over; the tie instantiates them with the twin table",
                           pre=regen, extra_cov={"translator": {"source": "tinyflux/database.py: index_is_exact -> coq/gen/GuardGen.v (regenerated on this run)",
                                                                "refused": refused, "equivalence_theorem": "gen_index_is_exact_eq"},
                                      "translator_index_search": {"source": "tinyflux/index.py: IndexResult.__invert__/__and__/__or__, Index._search_helper, Index._search_timestamps, Index.search -> coq/gen/SearchGen.v (regenerated on this run)",
-                                                                 "refused": refused, "equivalence_theorem": "gen_search_helper_eq (C01_source_index_search_is_the_model, C01_source_index_search_exact)"}})
+                                                                 "refused": refused, "equivalence_theorem": "gen_search_helper_eq (C01_source_index_search_is_the_model, C01_source_index_search_exact)"},
+                                     "translator_read_path": {"source": "tinyflux/database.py: read_op, TinyFlux.reindex, TinyFlux.contains / count / get / search (symbolic execution; storage loops recognised by what their body does) -> coq/gen/ReadGen.v (regenerated on this run)",
+                                                              "refused": refused, "equivalence_theorem": "gen_contains_eq, gen_count_eq, gen_get_eq, gen_search_eq, gen_read_prelude_eq (C01_source_*_is_the_model, C01_source_*_exact)"}})
 
